@@ -236,6 +236,37 @@ def consequences(ck, seed, tier):
             if float(torch.triu(J, diagonal=1).abs().max()) if F > 1 else 0.0:
                 ck.finding("MaskedAffineAutoregressive:jacobian-not-triangular", "upper triangle non-zero: %s" % J.tolist(),
                            {"search": "ar-jacobian", "F": F, "random_mask": rmask, "seed": seed})
+    # mixed precision: the same float32 networks under torch.autocast (bfloat16 on the CPU), where the hidden layers see inputs of
+    # another dtype than their weights - the masks still apply, output block i does not move with inputs k >= i
+    for rmask, resid in ((False, True), (False, False), (True, False)):
+        torch.manual_seed(seed % 100000 + 61)
+        F_ = 4
+        t = ar.MaskedAffineAutoregressiveTransform(features=F_, hidden_features=12, num_blocks=2, use_residual_blocks=resid, random_mask=rmask)
+        with torch.no_grad():
+            for prm in t.parameters():
+                prm.copy_(torch.randn(prm.shape) * 0.6)
+        t.eval()
+        net = t.autoregressive_net
+        x = torch.randn(3, F_)
+        ck.case(("autocast", rmask, resid), nontrivial=True)
+        try:
+            with torch.no_grad(), torch.autocast("cpu", dtype=torch.bfloat16):
+                o1 = net(x).float().reshape(3, F_, -1)
+                leak = None
+                for j in range(F_):
+                    x2 = x.clone()
+                    x2[:, j] += 1.5
+                    o2 = net(x2).float().reshape(3, F_, -1)
+                    if not torch.equal(o1[:, :j + 1], o2[:, :j + 1]):
+                        leak = j
+                        break
+        except RuntimeError:
+            ck.count("autocast-unavailable")
+            continue
+        if leak is not None:
+            ck.finding("MADE:output-depends-on-later-input:autocast",
+                       "MaskedAffineAutoregressive (residual %s, random mask %s) under torch.autocast(cpu, bfloat16): parameters of features <= %d "
+                       "change when input %d changes" % (resid, rmask, leak, leak), {"search": "autocast", "residual": resid, "random_mask": rmask, "seed": seed})
     # many features, double precision, mild parameters (the map is well conditioned: the unchanged code reproduces x to 1e-14): one
     # pass per feature is exact - a loop that stops early, judging convergence at another precision, is not
     for F in ((12, 20) if tier == "quick" else (8, 12, 16, 20, 32)):
